@@ -53,6 +53,8 @@ import Mathlib.Tactic.Linarith
   * `compareGates_refl_exact`, `gateEq_refl_bsr`, `gateEq_refl_exact`, `localMatrix_ctrl_big` (a controlled gate has
     the entry 1, so the modulus hypothesis holds for `atol ≤ 1`)
   * `compareGates_symm_exact`  `PhaseEq` on the union ⇒ both `compare_gates(g1,g2)` and `compare_gates(g2,g1)` are `True`
+  * `compareGates_sound`       `compare_gates = True` ⇒ the textbook operators (`denote` of the re-indexed gates) agree up
+                               to one factor `z ≠ 0` within `atol + 1e-5·|z·entry|` (never equates different operations)
   * `gateEq_eq_compareGates`   `Gate.__eq__` is `compare_gates` unless both gates are plain rotations
   * `equivPhase_reverse_bound` the tolerance version is asymmetric only through the `rtol·|z b|` term (and the pivot)
   NOTE: `Gate.__eq__` on two plain rotations (`bsrEq`) compares operators *including* the global phase, every other
@@ -1002,6 +1004,43 @@ theorem equivPhase_reverse_bound (atol : ℝ) (hatol : 0 < atol) (a b : Mat ℝ)
   rw [this, norm_neg, norm_mul, norm_inv, inv_mul_eq_div]
   exact div_le_div_of_nonneg_right (H k hk) hzn.le
 
+/-- **`compare_gates` never equates different operations (tolerance form).**  If `compare_gates(g1, g2)` is
+    `True`, both gates have textbook operators on the union register (`denote` of the re-indexed gates) and
+    these agree entrywise, up to one non-zero complex factor `z`, within `atol + 1e-5·|z·entry|`. -/
+theorem compareGates_sound (atol : ℝ) (hatol : 0 < atol) (g1 g2 : Gate ℝ)
+    (h : compareGates atol g1 g2 = .ok true) :
+    ∃ z : ℂ, z ≠ 0 ∧ ∀ r c, r < 2 ^ (dedup (g1.operands ++ g2.operands)).length →
+      c < 2 ^ (dedup (g1.operands ++ g2.operands)).length →
+      ‖(denote (dedup (g1.operands ++ g2.operands)).length
+            (g1.pos (dedup (g1.operands ++ g2.operands))) r c).toC
+        - z * (denote (dedup (g1.operands ++ g2.operands)).length
+            (g2.pos (dedup (g1.operands ++ g2.operands))) r c).toC‖
+        ≤ atol + 1e-5 * ‖z * (denote (dedup (g1.operands ++ g2.operands)).length
+            (g2.pos (dedup (g1.operands ++ g2.operands))) r c).toC‖ := by
+  rw [compareGates_eq_with] at h
+  generalize dedup (g1.operands ++ g2.operands) = idx at h ⊢
+  cases ha : localMatrix idx [g1] with
+  | error e => simp [compareGatesWith, ha, bind, Except.bind] at h
+  | ok a =>
+    cases hb : localMatrix idx [g2] with
+    | error e => simp [compareGatesWith, ha, hb, bind, Except.bind] at h
+    | ok b =>
+      rw [compareGatesWith_eq atol idx g1 g2 ha hb] at h
+      have h' : equivPhase atol a b = true := by injection h
+      have hsa := localMatrix_single_spec idx g1 a ha
+      have hsb := localMatrix_single_spec idx g2 b hb
+      obtain ⟨z, hz, H⟩ := equivPhase_sound_get atol hatol _ a b hsa.1 hsb.1 h'
+      refine ⟨z, hz, ?_⟩
+      intro r c hr hc
+      have := H r c hr hc
+      rwa [hsa.2.2 r c hr hc, hsb.2.2 r c hr hc] at this
+
+/-- non-vacuity: the hypothesis is satisfiable (reflexivity of a controlled rotation) -/
+example (ax : Vec3 ℝ) (an ph : ℝ) :
+    compareGates (1e-7 : ℝ) (Gate.ctrl 5 (.bsr 9 ax an ph)) (Gate.ctrl 5 (.bsr 9 ax an ph)) = .ok true := by
+  obtain ⟨A, hA, himp⟩ := compareGates_refl_exact (1e-7 : ℝ) (by norm_num) (Gate.ctrl 5 (.bsr 9 ax an ph)) trivial
+  exact himp (localMatrix_ctrl_big _ (by norm_num) _ _ _ A hA)
+
 /-! ## Errors do not depend on the enumeration either -/
 
 /-- a single-gate local matrix fails only with `ValueError`, exactly when an operand is not listed or a matrix
@@ -1096,4 +1135,5 @@ end OSq
 #print axioms OSq.gateEq_refl_exact
 #print axioms OSq.compareGates_symm_exact
 #print axioms OSq.equivPhase_reverse_bound
+#print axioms OSq.compareGates_sound
 #print axioms OSq.bsrEq_complete_exact
